@@ -380,7 +380,8 @@ def createFile (env : Env) : Nat → DirStream → String → Prog FileH
       let e ← findEntry env d name (some true)
       let sub ← e.toDir fs
       thenDrop sub (createFile env fuel sub rest)
-    | none => do
+    | none =>
+      if name = "." || name = ".." then .fail .invalidInput else do
       let r ← checkForExistence env d name (some false)
       match r with
       | .short sn => do
@@ -402,7 +403,8 @@ def createDir (env : Env) : Nat → DirStream → String → Prog DirStream
     | none => do
       let r ← checkForExistence env d name (some true)
       match r with
-      | .short sn => do
+      | .short sn =>
+        if name = "." || name = ".." then .fail .invalidInput else do
         liftE (Names.validateLongName name)
         let cluster ← allocClusterFs none true
         let sfn ← createSfnEntry sn ATTR_DIRECTORY (some cluster)
@@ -452,7 +454,8 @@ def remove (env : Env) : Nat → DirStream → String → Prog Unit
       let e ← findEntry env d name (some true)
       let sub ← e.toDir fs
       thenDrop sub (remove env fuel sub rest)
-    | none => do
+    | none =>
+      if name = "." || name = ".." then .fail .invalidInput else do
       let e ← findEntry env d name none
       let nonEmpty ← (if e.isDir then do
           let sub ← e.toDir fs
@@ -489,9 +492,10 @@ def ancestorWalkTop (env : Env) (target : Option Nat) (dst : DirStream) : Prog U
   ancestorWalk env target (fs.totalClusters + 3) dst 0
 
 /-- `rename_internal`: the new name is validated and a move of a directory into its own subtree refused before
-    anything is changed; the source slots are deleted (the clone used for that is flushed right away), the new entry
-    is written and the `..` entry of a moved directory is pointed at its new parent -/
-def renameInternal (env : Env) (d : DirStream) (srcName : String) (dst : DirStream) (dstName : String) : Prog Unit := do
+    anything is changed; the new entry is written first, then the source slots are deleted (the clone used for that
+    is flushed right away) and the `..` entry of a moved directory is pointed at its new parent -/
+def renameInternal (env : Env) (d : DirStream) (srcName : String) (dst : DirStream) (dstName : String) : Prog Unit :=
+  if srcName = "." || srcName = ".." || dstName = "." || dstName = ".." then .fail .invalidInput else do
   let fs ← Prog.getFs
   let e ← findEntry env d srcName none
   liftE (Names.validateLongName dstName)
@@ -500,8 +504,9 @@ def renameInternal (env : Env) (d : DirStream) (srcName : String) (dst : DirStre
   match r with
   | .entry dstE => if e.entryPos = dstE.entryPos then pure () else .fail .alreadyExists
   | .short sn => do
-    deleteEntry d e
     let newEntry ← writeEntry dst dstName (e.data.renamed sn)
+    -- the old slots are deleted only after the new entry is stored
+    deleteEntry d e
     if newEntry.isDir then do
       let parentCluster := if dst.isRootDir then none else dst.firstCluster
       let moved ← newEntry.toDir fs
